@@ -329,7 +329,7 @@ def solveMilp (M : MilpIn) (cfg : MilpCfg) : MilpOut :=
   if root.status == .UNBOUNDED then ⟨.UNBOUNDED, none, none, 0, [], root.near, true⟩ else
   match mostFractional root.sol M.ints cfg.eps with
   | none => ⟨.OPTIMAL, some root.sol, some root.obj, 1, [], root.near || fracTie root.sol M.ints cfg.eps,
-      nodeCheck M cfg.eps (lower0 M) (upper0 M) root⟩
+      root.status == .OPTIMAL && nodeCheck M cfg.eps (lower0 M) (upper0 M) root⟩
   | some _ => bnbLoop M cfg (2 * cfg.maxNodes + 2) (initState M cfg root)
 
 end Solvor.Lp
